@@ -35,8 +35,8 @@
 (* in-range amount modulo 2^64), "u64max" (2^64-1), "over64" (2^64),       *)
 (* "nil" (field absent); and, only ever produced by projecting a concrete   *)
 (* number (stored records, random concrete messages), "big" (any other     *)
-(* amount above 2e9 units) and "other" (below -1).  The harness maps both  *)
-(* ways                                                                    *)
+(* amount above 2e9 units), "vast" (any other amount above 2^64) and       *)
+(* "other" (below -1).  The harness maps both ways                         *)
 (* (harness/limitsh/abs.go) and is the only place with real numbers.       *)
 (***************************************************************************)
 EXTENDS Integers, Sequences, FiniteSets, FiniteSetsExt, TLC, Json
@@ -92,7 +92,7 @@ ASSUME /\ Impl \in {"intended", "asfound"}
 Lin(a, b) == [k |-> "lin", a |-> a, b |-> b]
 Sp(k)     == [k |-> k, a |-> 0, b |-> 0]
 IsLin(v)  == v.k = "lin"
-Huge      == {"p63", "wrap", "u64max", "over64", "big"}   \* values above every limit
+Huge      == {"p63", "wrap", "u64max", "over64", "big", "vast"}   \* values above every limit
 
 \* renormalise a*U + b so that b is in [-U/2, U/2)
 Norm(r, a, b) == LET U == Unit[r]
@@ -174,7 +174,7 @@ LTl(v, x)  == v.k \in {"neg", "other"} \/ (IsLin(v) /\ ~GEl(v, x))
 \* panics outside 0..2^64-1 (runTx recovers: the transaction fails), then the two-sided bound
 ResVerdict(r, v) ==
     IF v.k = "nil" THEN "unit-" \o r
-    ELSE IF v.k \in {"neg", "over64", "other"} THEN "panic"
+    ELSE IF v.k \in {"neg", "over64", "other", "vast"} THEN "panic"
     ELSE IF GTl(v, MaxUnit[r]) \/ LTl(v, MinUnit[r]) THEN "unit-" \o r
     ELSE "ok"
 
